@@ -89,3 +89,83 @@ def fresh_only_after_failed_pop(ctx, facts, rule):
         n += 1
         ctx.ob(rule, key, ok, b.loc(line=line), why)
     return n, model
+
+
+def pending_loops(model, b):
+    """loops of an allocator body over a pending set: (next bb, field, item origin, Some-edge target)"""
+    out = []
+    for nbb, nt in b.calls():
+        if nt["callee"].get("path") != "std::iter::Iterator::next":
+            continue
+        flds = {r[2][0] for r in b.roots(b.arg_origin(nbb, 0)) if r[0] == "param" and r[1] == 1 and r[2]}
+        flds &= {"raised", "killed"}
+        if len(flds) != 1:
+            continue
+        for ve in b.variant_edges(lambda so: so == ("call", nbb, ())):
+            some = ve["edges"].get("Some")
+            if some:
+                out.append((nbb, flds.pop(), ("call", nbb, ("as Some", "0")), some[1]))
+    return out
+
+
+def result_pushes(b):
+    """pushes of Entity aggregates into the vector the body returns: (bb, index origin)"""
+    ro = None
+    for d in b.defs().get(0, []):
+        if d[0] == "stmt" and d[4]["k"] == "use":
+            ro = b.operand_origin(d[4]["ops"][0])
+    out = []
+    if ro is None:
+        return out
+    for bb, t in b.calls():
+        if t["callee"].get("name") == "push" and "vec::Vec" in t["callee"].get("path", "") and b.arg_origin(bb, 0) == ro:
+            eo = b.arg_origin(bb, 1)
+            if eo[0] == "agg":
+                rv = b.blocks[eo[1]]["stmts"][eo[2]]["rv"]
+                if rv.get("adt") == "world::entity::Entity" and rv["ops"]:
+                    out.append((bb, b.operand_origin(rv["ops"][0])))
+    return out
+
+
+def merge_accounting(ctx, facts, model, parts):
+    """parts: dict name -> rule id.  'revive': every pending creation becomes alive (or is reported dead);
+    'kill': every pending deletion kills its slot; 'report': every slot death is reported in the returned vector."""
+    n = 0
+    for b in model.bodies:
+        loops = pending_loops(model, b)
+        if not loops or not b.ltype[0].startswith("std::vec::Vec<world::entity::Entity"):
+            continue
+        pushes = result_pushes(b)
+        dies = model.gen_slot_calls(b, model.die)
+        rets = b.returns()
+        for nbb, fld, item, tgt in loops:
+            n += 1
+            goals = [nbb] + rets
+            if fld == "raised" and "revive" in parts:
+                adds = [bb for bb, t in model.revive_sites(b) if b.arg_origin(bb, 1) == item]
+                rep = [bb for bb, io in pushes if io == item]
+                ok, wit = b.must_pass(tgt, adds + rep, goals=goals)
+                ctx.ob(parts["revive"], "%s: every pending creation becomes alive (or is reported dead)" % b.path, ok, b.loc(nbb),
+                       "" if ok else "an index taken from the pending-creation set can leave the merge loop neither alive nor reported as deleted: "
+                       "the entity vanishes, its index is lost and its components are never purged; path %s" % b.fmt_path(wit))
+            if fld == "killed" and "kill" in parts:
+                ds = [bb for bb, k in dies if k == item]
+                ok, wit = b.must_pass(tgt, ds, goals=goals)
+                ctx.ob(parts["kill"], "%s: every pending deletion takes effect" % b.path, ok, b.loc(nbb),
+                       "" if ok else "an index taken from the pending-deletion set can leave the merge loop without its generation slot dying; path %s" % b.fmt_path(wit))
+        if "report" in parts:
+            for dbb, k in dies:
+                lp = [(nbb, tgt) for nbb, fld, item, tgt in loops if item == k]
+                if not lp:
+                    ctx.ob(parts["report"], "%s: slot death at line %d is reported" % (b.path, b.term(dbb)["line"]), "undetermined", b.loc(dbb),
+                           "cannot relate the dying index to a pending-set iteration (%r)" % (k,))
+                    continue
+                nbb, tgt = lp[0]
+                P = [bb for bb, io in pushes if io == k]
+                before = dbb in b.reachable(tgt, stop=P) and dbb not in P
+                after = any(g in b.reachable(dbb, stop=P) for g in [nbb] + rets) if before else False
+                ok = not (before and after)
+                ctx.ob(parts["report"], "%s: index dying in the `%s` loop is reported in the returned handles" % (b.path, [f for n_, f, it, tg in loops if n_ == nbb][0]), ok, b.loc(dbb),
+                       "" if ok else "an index dies in merge without its handle being pushed to the returned vector: World::maintain purges components only "
+                       "for the handles merge returns, so the next entity on this index inherits the dead entity's components")
+    return n
